@@ -77,7 +77,8 @@ func propC01(w *World, r *Report) {
 	RunLosslessFor(w, r, "C01", newBoundsRun(w))
 	RunSearchFields(w, r, nil)
 	r.Floor("searchfields", 9)
-
+	RunFontCarry(w, r)
+	r.Floor("fontcarry", 40)
 }
 
 // condNameSingleLanguage: every call of (*name.Info).Encode in the given
